@@ -312,7 +312,9 @@ func directLx(op *Sx) int {
 				for k := range list.ToGoSet(buildList(e, 0)) {
 					parts = append(parts, Show(k))
 				}
-				return sortedJoin("{", parts, "}")
+				// keys of different DYNAMIC types with the same rendering (Tuple2[any,any]{0,0} from Zip, Tuple2[int,any]{0,0} from
+				// ZipWithIndex) are different Go map keys but the same value of the model's universal value type
+				return sortedJoin("{", uniqStrings(parts), "}")
 			})
 			if want := dedupShow(ref); got != want {
 				recordFail("list.ToGoSet", one, "ToGoSet="+got+" eager="+want)
@@ -826,4 +828,17 @@ func directFixed(r *Rng, rounds int) int {
 	}
 	_ = sort.Strings
 	return checks
+}
+
+// uniqStrings removes duplicates (order preserved)
+func uniqStrings(xs []string) []string {
+	seen := map[string]bool{}
+	out := []string{}
+	for _, x := range xs {
+		if !seen[x] {
+			seen[x] = true
+			out = append(out, x)
+		}
+	}
+	return out
 }
